@@ -8,6 +8,7 @@ import (
 	"go/types"
 	"math"
 	"math/big"
+	"time"
 )
 
 var IntSort = Sort{Kind: 'I'}
@@ -230,6 +231,17 @@ func init() {
 		}
 		X.addPC(arith("<=", BoolSort, RConst(0), t), arith("<", BoolSort, t, RConst(1)))
 		return symf{t}
+	}
+	// (time.Duration).Seconds: d/1e9 as a real, one rounding
+	symExternals["(time.Duration).Seconds"] = func(fr *frame, args []value) value {
+		t := termOf(args[0])
+		if t.Op == "const" {
+			return time.Duration(int64(t.Val)).Seconds()
+		}
+		if t.Sort.Kind != 'I' {
+			panic(abortPath{"unsupported: symbolic Duration.Seconds outside int/real mode"})
+		}
+		return symf{X.rounded(arith("/", RealSort, newTerm("to_real", RealSort, t), RConst(1e9)))}
 	}
 	symExternals["math.Pow"] = func(fr *frame, args []value) value {
 		b, ok1 := args[0].(float64)
